@@ -110,6 +110,8 @@ def expr(e, sc, unqual=False):
         a = "*" if e[2] == "*" else X(e[2])
         d = "DISTINCT " if len(e) > 3 and e[3] == "distinct" else ""
         return "%s(%s%s)" % (e[1], d, a)
+    if k == "aggf":
+        return "%s(%s) FILTER (WHERE %s)" % (e[1], X(e[2]), X(e[3]))
     if k == "win":
         over = []
         if e[3]:
